@@ -781,3 +781,10 @@ def run(ctx):
     rule_c(ctx)
     rule_d(ctx)
     rule_e(ctx)
+    # the orientation of the axes is written down twice in the repository (interpret_indexing, and the flips / transposes of the
+    # array-layout helpers); C01.a shows the table is self-consistent, the shared rule that the two statements of the convention agree
+    from . import c20
+    from .common import shared
+
+    T_i, _, _ = c20.extract_tables(ctx)
+    shared(ctx, "C01.a", c20.rule_b, T_i, why="the documented orientation is fixed independently by the array-layout helpers; a self-consistent table with another orientation must disagree with them")
